@@ -183,6 +183,9 @@ func TestSim(t *testing.T) {
 		if res.Holds > 0 {
 			out.Faults["hold"] += res.Holds
 		}
+		if res.Yields > 0 {
+			out.Faults["site_yield"] += res.Yields
+		}
 		if n := simsync.PoolStale.Load(); n > 0 {
 			out.Faults["pool_stale"] += int(n)
 		}
